@@ -10,7 +10,7 @@ use crate::{
 use koto_lexer::{LexedToken, Lexer, Span, StringType, Token};
 use std::{
     borrow::Cow,
-    collections::HashSet,
+    collections::{HashMap, HashSet},
     iter::Peekable,
     str::{Chars, FromStr},
 };
@@ -29,7 +29,12 @@ struct Frame {
     // accessed IDs that weren't locally assigned at the time of access are then counted as
     // non-local accesses.
     pending_accesses: HashSet<ConstantIndex>,
-    pending_assignments: HashSet<ConstantIndex>,
+    // Pending assignments are stored along with the expression depth of the assignment's RHS.
+    // The assignment only counts as being made once the RHS has been parsed,
+    // nested expressions in the RHS that get finalized earlier mustn't count it as assigned.
+    pending_assignments: HashMap<ConstantIndex, usize>,
+    // The nesting depth of the series of expressions that's currently being parsed
+    expression_depth: usize,
 
     // If this is still `Some` after the expression is done parsing
     // then this error will be returned.
@@ -49,7 +54,7 @@ impl Frame {
     // creating the nested inner frame.
     fn add_nested_accessed_non_locals(&mut self, nested_frame: &Frame) {
         for non_local in nested_frame.accessed_non_locals.iter() {
-            if !self.pending_assignments.contains(non_local) {
+            if !self.pending_assignments.contains_key(non_local) {
                 self.add_id_access(*non_local);
             }
         }
@@ -62,7 +67,9 @@ impl Frame {
 
     // Declare that an id is being assigned to within the frame
     fn add_local_id_assignment(&mut self, id: ConstantIndex) {
-        self.pending_assignments.insert(id);
+        // The RHS of the assignment will be parsed as a nested series of expressions
+        self.pending_assignments
+            .insert(id, self.expression_depth + 1);
         // While an assignment expression is being parsed, the LHS id is counted as an access
         // until the assignment operator is encountered.
         self.pending_accesses.remove(&id);
@@ -76,8 +83,18 @@ impl Frame {
             }
         }
 
-        self.ids_assigned_in_frame
-            .extend(self.pending_assignments.drain());
+        // Assignments are made once their RHS has been parsed,
+        // which isn't the case yet for assignments with a lower depth than the current depth.
+        let depth = self.expression_depth;
+        let ids_assigned_in_frame = &mut self.ids_assigned_in_frame;
+        self.pending_assignments.retain(|id, assignment_depth| {
+            if *assignment_depth >= depth {
+                ids_assigned_in_frame.insert(*id);
+                false
+            } else {
+                true
+            }
+        });
     }
 
     // Register an error, that will be returned after the expression has been parsed.
@@ -499,6 +516,21 @@ impl<'source> Parser<'source> {
     // (i.e. not assigned to an identifier) in which case a TempTuple is generated,
     // otherwise the result will be a Tuple.
     fn parse_expressions(
+        &mut self,
+        context: &ExpressionContext,
+        temp_result: TempResult,
+    ) -> Result<Option<AstIndex>> {
+        self.frame_mut()?.expression_depth += 1;
+        let result = self.parse_expressions_inner(context, temp_result);
+        if let Ok(frame) = self.frame_mut() {
+            // After an error the frame stack may not have been unwound, the depth is only meaningful
+            // while parsing continues.
+            frame.expression_depth = frame.expression_depth.saturating_sub(1);
+        }
+        result
+    }
+
+    fn parse_expressions_inner(
         &mut self,
         context: &ExpressionContext,
         temp_result: TempResult,
